@@ -5,6 +5,7 @@ import SplVerif.Lemmas.ParserTables
 import SplVerif.Lemmas.Resync
 import SplVerif.Lemmas.Prefix
 import SplVerif.Lemmas.Total
+import SplVerif.Lemmas.Shift
 
 namespace Spl.C05
 
@@ -126,5 +127,55 @@ example :
         | .error _ => false)
      | .error _ => false) = true := by
   decide +kernel
+
+open Spl.ParseConform in
+/-- **Declarations behind the damage are parsed exactly as before.**  `A` is the undamaged token sequence, for
+    which the grammar specification derives `progA` (absolute ranges; `Grammar.relDecl` turns a declaration into the
+    implementation's convention, and by `C04.parse_conforms` that is what `parser::parse` returns for `A`).  Split
+    its declarations anywhere: `pre ++ post`.  Then `post` starts at a position `e` directly behind a token (the
+    start of the doc comments of its first declaration), and in EVERY token sequence that goes on, from some position
+    directly behind a token, with the same tokens as `A` from `e` on — whatever stands in front: the damaged
+    declaration, garbage, fewer or more tokens — the declaration loop of the parser, when it stands there, returns
+    exactly the declarations `post` of the undamaged program: identical sub-trees (every node, range, inner
+    `Reference` offset, doc comment, no diagnostic), each at its `Reference` offset moved by the difference of the
+    two positions; and it goes on at the end of the file.  (`Lemmas/Shift`: the grammar specification does not
+    depend on where in the sequence a run of declarations stands.  That the loop does come to stand exactly there
+    is `keywords_start_declarations` + `global_resync` up to the comment run in front of the keyword; the remaining
+    step is evaluated on every run by PROPCONTAIN.) -/
+theorem following_declarations_as_before (A : List Token) (progA : Program) (hA : Grammar.parseAbs A = some progA)
+    (pre post : List (Ref GlobalDecl)) (hsp : progA.decls = pre ++ post) :
+    ∃ e, Fresh A.toArray e ∧ (∀ d rest, post = d :: rest → d.val.info.range.lo = e) ∧
+      ∀ (ctx : Parse.Ctx) (s : Parse.St) (f : Nat), ctx.toks.toList.drop s.pos = A.drop e →
+        Fresh ctx.toks s.pos → s.refPos = 0 →
+        ∃ endB ieof, s.pos ≤ endB ∧ At ctx { s with pos := endB } [⟨ieof, .Eof⟩] ∧
+          Parse.many0 (Parse.refParse (Parse.parseGlobalDecl ctx) none) (f + post.length) s =
+            prependRes ((post.map Grammar.relDecl).map (fun r => ⟨r.val, r.offset - e + s.pos⟩))
+              (Parse.many0 (Parse.refParse (Parse.parseGlobalDecl ctx) none) f { s with pos := endB }) := by
+  simp only [Grammar.parseAbs] at hA
+  split at hA
+  · cases hA
+  · rw [← tsFrom_zero] at hA
+    cases hd : Grammar.decls ⟨A.toArray⟩ ((tsFrom A.toArray 0).length + 1) (tsFrom A.toArray 0) with
+    | none => simp [hd] at hA
+    | some res =>
+      obtain ⟨ds, last⟩ := res
+      simp only [hd, Option.some.injEq] at hA
+      subst hA
+      simp only at hsp
+      subst hsp
+      let ctxA : Parse.Ctx := { toks := A.toArray, change := ⟨0, 0, A.length⟩ }
+      have hat : At ctxA ({ pos := 0 } : Parse.St) (tsFrom ctxA.toks 0) := ⟨Or.inl rfl, Nat.le_refl _, rfl⟩
+      obtain ⟨fd', e, last', _, hatE, hd'⟩ := Shift.decls_split ctxA pre _ _ post last hd _ hat
+      refine ⟨e, hatE.fresh, ?_, ?_⟩
+      · intro d rest hpost
+        subst hpost
+        exact Shift.decls_head_start ctxA fd' _ d rest last' hd' _ hatE
+      · intro ctx s f hsuf hfs href
+        exact Shift.tail_as_before A.toArray e fd' post last' hd' hatE.fresh ctx s (by simpa using hsuf) hfs href f
+
+/- Non-vacuity of `following_declarations_as_before`: its hypothesis `Grammar.parseAbs A = some progA` is what
+   SPECPARSE / PROPCONTAIN establish by evaluation for every generated valid program on every run (the kernel
+   evaluation of `parseAbs` on a literal text is too slow to keep as an `example` here); the hypotheses about the
+   damaged sequence are instantiated by the three damage operations of PROPCONTAIN. -/
 
 end Spl.C05
